@@ -161,6 +161,25 @@ CHECKS += [
      "design_ref": "DESIGN.md 4/C01", "technique": TLA + " (Meaning.tla / Mods.tla generators, compiler as observer)",
      "note": "sampling of an infinite space with an external oracle: TLA+ contributes the generators and the acceptance; meaning = object code of the installed compilers"},
 ]
+
+ENGINES += [
+    {"name": "fixedpoint", "path": "spec/FixedPoint.tla spec/FixedPointTrace.tla profiles/ vlib/checks/c05.py",
+     "serves_properties": ["C05"],
+     "kind_free_text": "TLA+ history machine Run / Check over an abstract formatter function: with an idempotent formatter every history satisfies RunIsStable, SecondRunAccepts and CheckAfterRunPasses, without idempotence TLC produces the failing histories; observed histories (three consecutive runs plus --check, with the newline-loop exit reason from the pass hook) are judged by the trace specification"},
+    {"name": "process", "path": "spec/Process.tla spec/ProcessTrace.tla vlib/checks/c06.py",
+     "serves_properties": ["C06"],
+     "kind_free_text": "TLA+ process protocol of one run (phases, documented refusal statuses, stdout only after all passes) with the two convergence loops; TLC checks the protocol invariants and termination under weak fairness with the width loop's progress assumption made explicit (without it: livelock); every execution on mutated, truncated and fragmentary inputs is judged by the trace specification, hangs are classified by the pass in which they spin"},
+]
+CHECKS += [
+    {"id": "C05", "engine": "fixedpoint", "level": "exploration",
+     "text": "FixedPoint.tla is model-checked over all formatter functions on 3 contents (idempotent family holds, general family yields counterexamples). On the binary, Run; Run; Run; --check histories are observed for C/C++ corpus inputs and the generated programs of the other checks under the built-in defaults and the 8 shipped styles kept in /verif/profiles (fixed point claimed; each pair unstable on the pinned tree is a listed finding), and for corpus (input, config) pairs and seeded configurations (weaker claim: the second run accepts the first run's output).",
+     "design_ref": "DESIGN.md 4/C05", "technique": TLA + " (FixedPoint.tla history machine)",
+     "note": "no mechanism model of why passes are idempotent: a regression is found by running it; the newline-loop bound exit is reported as a predictor"},
+    {"id": "C06", "engine": "process", "level": "exploration",
+     "text": "Process.tla: protocol invariants and termination (FairSpec, <>Exit) hold with the progress assumption and fail without it. About 5400 (thorough 60000+) executions: seeded truncations, bracket / quote deletions, inserted openers, swaps and byte noise of corpus files of all nine languages, 50 fragments that end inside a construct x 9 languages, dense programs under width pressure; configurations: default, shipped styles, seeded draws and configurations that set EVERY option at random (so that multi-option interactions occur); each run is judged by ProcessTrace for time limit, signal, documented status, empty stdout on failure, diagnostic unless -q; thorough runs the ASan+UBSan build.",
+     "design_ref": "DESIGN.md 4/C06", "technique": TLA + " (Process.tla protocol + loop termination)",
+     "note": "exploration of an infinite input space; memory safety only through the sanitizer build (thorough); 8 s time limit"},
+]
 _PENDING = "check not built yet in this commit (specification module planned in DESIGN.md 3.1); will be claimed when its check is quiet on the unchanged tree"
 NOT_APPLICABLE = [{"property_id": "C%02d" % i, "reason": _PENDING} for i in range(1, 21) if "C%02d" % i not in {c["id"] for c in CHECKS}]
 NOTES = "All checks: bin/check <ID> --tier quick|thorough; VERIF_SEED is honoured; evidence in /verif/evidence/<ID>.json; known findings in /verif/known_findings.json."
